@@ -399,9 +399,9 @@ ORDER_FREE_CALLEES = {
     "function_is_actually_in_use": "inserts into a HashSet and recurses; the resulting set does not depend on visiting order",
 }
 FRESH_KEY_EXCEPTIONS = {
-    ("parse_expr", "k.0.clone()"): "key is cctmp<literal_counter>, a name the counter never repeats",
-    ("parse_expr_init_value", "k.0.clone()"): "key is cctmp<literal_counter>, a name the counter never repeats",
-    ("compile_var_decl", "name.clone()"): "key is cctmp<literal_counter>, a name the counter never repeats (array-of-pointers literals)",
+    ("parse_expr", "k.0.clone()"): "key is cctmp<literal_counter>, a name the counter never repeats and that no declaration can take (T-RESERVED-NAMES)",
+    ("parse_expr_init_value", "k.0.clone()"): "key is cctmp<literal_counter>, a name the counter never repeats and that no declaration can take (T-RESERVED-NAMES)",
+    ("compile_var_decl", "name.clone()"): "key is cctmp<literal_counter>, a name the counter never repeats and that no declaration can take (T-RESERVED-NAMES) (array-of-pointers literals)",
     ("compile", '"DUMMY".to_string()'): "inserted once, after parsing",
 }
 
@@ -673,12 +673,20 @@ def _order_fresh_inserts(facts, res, counted):
                 if pol and re.search(r"%s\.get\(&?%s\)\.is_none\(\)" % (re.escape(mapt), re.escape(kvar)), g.replace(" ", "")):
                     fresh = True
             for n in walk(fn["body"]):
-                if n.get("k") == "if":
+                if n.get("k") in ("if", "while"):
                     c = expr_text(n["cond"]).replace(" ", "")
                     if re.search(r"%s\.get\(&?%s\)\.is_some\(\)" % (re.escape(mapt), re.escape(kvar)), c):
-                        tt = expr_text(n["then"])
-                        if "return Err" in tt or re.search(r"\b%s=" % re.escape(kvar), tt):
+                        body = n["then"] if n.get("k") == "if" else n["body"]
+                        tt = expr_text(body)
+                        if "return Err" in tt and n.get("k") == "if":
                             fresh = True
+                        elif re.search(r"\b%s=" % re.escape(kvar), tt):
+                            # a rename: the new name has to be tested too (a loop), it may be another entry's
+                            if n.get("k") == "while":
+                                fresh = True
+                            else:
+                                res.fail(key + ":renamed-once", facts.where(fn, n), "%s renames `%s` when it is taken and inserts the new name without testing it: the name made up may be the one of another entry (`x` renamed `x_0` next to a local `x_0`), which is then replaced" % (fn["name"], kvar))
+                                fresh = True
             if not fresh and (fn["name"], keyt) in FRESH_KEY_EXCEPTIONS:
                 res.note("exception %s: %s" % (key, FRESH_KEY_EXCEPTIONS[(fn["name"], keyt)]))
                 fresh = True
